@@ -726,7 +726,35 @@ class Interp:
         self.event("counter", node, (name, old, m.value))
 
     # ---- loops
+    def _array_loop(self, s, env):
+        """`for x in a`, `for i, x in enumerate(a)`, `for x, y in zip(a, b)` over 1-D arrays: the same loop over
+        range(len(a)) with the elements read at the loop index -> (rng, index target or None, [(target, array), ...])"""
+        it = s.iter
+        def arr_of(node):
+            try:
+                v = self.eval(node, env)
+            except AnalysisError:
+                return None
+            return v if isinstance(v, Arr) and v.ndim == 1 and v.shape is not None and ("gen" in v.meta or isinstance(v, SymArr)) else None
+        if isinstance(it, ast.Call) and isinstance(it.func, ast.Name) and it.func.id == "enumerate" and len(it.args) == 1 and not it.keywords and it.func.id not in env:
+            a = arr_of(it.args[0])
+            if a is not None and isinstance(s.target, ast.Tuple) and len(s.target.elts) == 2 and isinstance(s.target.elts[0], ast.Name):
+                return RangeV(ZERO, a.shape[0], ONE), s.target.elts[0], [(s.target.elts[1], a)]
+        if isinstance(it, ast.Call) and isinstance(it.func, ast.Name) and it.func.id == "zip" and it.args and not it.keywords and it.func.id not in env:
+            arrs = [arr_of(x) for x in it.args]
+            if all(a is not None for a in arrs) and isinstance(s.target, ast.Tuple) and len(s.target.elts) == len(arrs):
+                return RangeV(ZERO, arrs[0].shape[0], ONE), None, list(zip(s.target.elts, arrs))
+        if not isinstance(it, ast.Call):
+            a = arr_of(it)
+            if a is not None:
+                return RangeV(ZERO, a.shape[0], ONE), None, [(s.target, a)]
+        return None
+
     def exec_for(self, s, env):
+        al = self._array_loop(s, env)
+        if al is not None:
+            self.exec_range_loop(s, al[0], env, index_target=al[1], elements=al[2])
+            return
         it = self.eval(s.iter, env)
         if isinstance(it, RangeV):
             self.exec_range_loop(s, it, env)
@@ -761,16 +789,20 @@ class Interp:
             if k in before and v is not before[k] and not isinstance(v, Arr):
                 env[k] = Unknown("loop-carried %s" % k)
 
-    def exec_range_loop(self, s, rng, env):
-        if not isinstance(s.target, ast.Name):
-            raise AnalysisError("range loop with non-name target")
+    def exec_range_loop(self, s, rng, env, index_target="target", elements=()):
+        if index_target == "target":
+            index_target = s.target
+            if not isinstance(s.target, ast.Name):
+                raise AnalysisError("range loop with non-name target")
+        idx_name = index_target.id if index_target is not None else "<index of loop at line %d>" % s.lineno
         self._loop_ids += 1
         L = LoopSummary(self._loop_ids, s, rng, self.cur_mod.name, self.cur_fn.name if self.cur_fn else "?")
         ivar = alg._atom("sym", "i#%d" % L.id, (), pos=False, real=True, integer=True)
         L.ivar = ivar
         i_expr = rng.start + alg.atom_expr(ivar) * rng.step
         assigned = _assigned_names(s.body)
-        carried = [k for k in sorted(assigned) if k in env and k != s.target.id]
+        elem_names = {x.id for t, _ in elements for x in ast.walk(t) if isinstance(x, ast.Name)}
+        carried = [k for k in sorted(assigned) if k in env and k != idx_name and k not in elem_names]
         head = {}
         for k in carried:
             v = env[k]
@@ -797,7 +829,9 @@ class Interp:
                 nv.meta["carried"] = (k, s.lineno)
                 env[k] = nv
         L.head = head
-        env[s.target.id] = i_expr
+        env[idx_name] = i_expr
+        for tgt, arr in elements:
+            self.assign(tgt, self.np.load(self, arr, [i_expr], s, env), env)
         self.loop_stack.append(L)
         try:
             self.exec_block(s.body, env)
@@ -1565,6 +1599,8 @@ class Interp:
         if isinstance(base, Expr):
             # scalar indexed like an array (e.g. `...` on 0-d): keep the value
             return base
+        if isinstance(base, FuncRef) and base.kind == "method" and isinstance(base.bound, Opaque):
+            return Unknown("item of attribute %s of an opaque object" % base.dotted)
         raise AnalysisError("%s:%d: subscript of %r not modelled" % (self.cur_mod.name, node.lineno, base))
 
     def slice_segments(self, base, node, env):
@@ -1789,6 +1825,11 @@ class Interp:
         if stub is not None:
             self.cur_callee = f
             return stub(self, args, kwargs, node)
+        if f.kind == "partial":
+            g, pargs, pkw = f.bound
+            kw2 = dict(pkw)
+            kw2.update(kwargs)
+            return self.call(g, list(pargs) + list(args), kw2, node, env)
         if f.kind in ("pkg", "closure", "lambda"):
             return self.call_package(f, args, kwargs, node)
         if f.kind == "class":
@@ -1803,6 +1844,22 @@ class Interp:
                     self, FuncRef("method", f.dotted, bound=nb), args, kwargs, node), kind)
             return r
         if f.kind == "ext":
+            out = kwargs.get("out")
+            if out is not None:
+                # ufunc(..., out=a): the result is written into a - every name bound to that array sees it
+                kw2 = {k: v for k, v in kwargs.items() if k != "out"}
+                r = self.np.external(self, f.dotted, args, kw2, node)
+                if isinstance(out, Arr):
+                    if isinstance(out, SymArr) or out.meta.get("param") or out.meta.get("alias_of_param"):
+                        self.event("param-mutation", node, "%s(..., out=%s) writes into the caller's array" % (f.dotted, out.name))
+                    new = r if isinstance(r, Arr) else Unknown("contents of %s after %s(..., out=...)" % (out.name, f.dotted))
+                    if isinstance(new, Arr) and out.name and new.name != out.name:
+                        new = new.copy(name=out.name)
+                    for k in list(env):
+                        if env[k] is out:
+                            env[k] = new
+                    return new
+                return r
             return self.np.external(self, f.dotted, args, kwargs, node)
         raise AnalysisError("call kind %s" % f.kind)
 
@@ -1845,9 +1902,9 @@ BUILTINS = {
     "complex", "reversed", "map", "id", "next", "iter", "slice", "KeyError", "IndexError", "ImportError",
 }
 
-EXT_MODULES = {"numpy", "np", "math", "scipy", "numba", "pyfftw", "os", "logging", "warnings", "hashlib", "pathlib",
+EXT_MODULES = {"functools", "numpy", "np", "math", "scipy", "numba", "pyfftw", "os", "logging", "warnings", "hashlib", "pathlib",
                "yaml", "xarray", "pickle", "atexit", "dataclasses", "typing", "datetime", "concurrent", "matplotlib", "sys", "argparse"}
-EXT_MODULES_FULL = {"numpy", "numpy.fft", "math", "scipy", "scipy.special", "numba", "os", "os.path", "logging", "warnings",
+EXT_MODULES_FULL = {"functools", "numpy.subtract", "numpy.add", "numpy", "numpy.fft", "math", "scipy", "scipy.special", "numba", "os", "os.path", "logging", "warnings",
                     "hashlib", "pathlib", "yaml", "xarray", "pyfftw", "pyfftw.interfaces", "pyfftw.interfaces.numpy_fft",
                     "pyfftw.interfaces.cache", "pickle", "atexit", "concurrent", "concurrent.futures", "matplotlib", "matplotlib.pyplot", "sys"}
 EXT_CONSTS = {
@@ -2058,7 +2115,7 @@ def _read_in_body(stmts, name):
         for n in ast.walk(st):
             if isinstance(n, (ast.Assign, ast.AugAssign)):
                 tg = n.targets if isinstance(n, ast.Assign) else [n.target]
-                for t in tg:
+                for t in _flat_targets(tg):
                     if isinstance(t, ast.Subscript) and isinstance(t.value, ast.Name):
                         store_bases.add(id(t.value))
         for n in ast.walk(st):
@@ -2069,13 +2126,26 @@ def _read_in_body(stmts, name):
     return False
 
 
+def _flat_targets(tg):
+    """assignment targets with tuple / list / starred targets flattened"""
+    out = []
+    for t in tg:
+        if isinstance(t, (ast.Tuple, ast.List)):
+            out.extend(_flat_targets(t.elts))
+        elif isinstance(t, ast.Starred):
+            out.extend(_flat_targets([t.value]))
+        else:
+            out.append(t)
+    return out
+
+
 def _stored_names(stmts):
     out = set()
     for s in stmts:
         for n in ast.walk(s):
             if isinstance(n, (ast.Assign, ast.AugAssign)):
                 tg = n.targets if isinstance(n, ast.Assign) else [n.target]
-                for t in tg:
+                for t in _flat_targets(tg):
                     if isinstance(t, ast.Subscript) and isinstance(t.value, ast.Name):
                         out.add(t.value.id)
     return out
